@@ -128,11 +128,20 @@ def shapes(params, rng, max_perm=3):
     return out
 
 
-def call_text(cls, meth, params, shape, vals):
+# spellings of one and the same argument list: (text around `=` of a keyword argument, separator, padding inside the parentheses, trailing comma).
+# Python's grammar binds all of them identically; the first is the canonical one used everywhere else.
+STYLES = [("=", ", ", "", False), (" = ", ", ", "", False), (" =", ", ", "", False), ("= ", ", ", "", False), ("  =  ", ",  ", " ", False),
+          ("=", ",", "", False), ("=", " , ", " ", False), ("\t=\t", ",\t", "", False), ("=", ", ", "", True), (" = ", " ,", "  ", True)]
+
+
+def call_text(cls, meth, params, shape, vals, style=None):
     names, k, order = shape
+    eq, sep, padding, trailing = style or STYLES[0]
     pos_params = [p[0] for p in params if p[1] == "pos"]
-    args = [vals[n] for n in pos_params[:k]] + [f"{n}={vals[n]}" for n in order]
-    arglist = ", ".join(args)
+    args = [vals[n] for n in pos_params[:k]] + [f"{n}{eq}{vals[n]}" for n in order]
+    arglist = sep.join(args)
+    if args:
+        arglist = padding + arglist + ("," if trailing else "") + padding
     if cls == "Core":
         inner = f"{meth}({arglist})"
         return HEAD + (f"mon.write({inner})\n" if meth.endswith("_read") else inner + "\n")
